@@ -34,7 +34,7 @@ BOUND = {
 }
 TIME_CAP = {"quick": 300, "thorough": 3000}
 
-STAT_ALPHA = {"f8": [None, "1.0", "2.0", "-1.5", "0.25"], "i8": [0, 1, 2, -3], "b1": [False, True]}
+STAT_ALPHA = {"f8": [None, "1.0", "2.0", "-1.5", "0.25"], "i8": [0, 1, 2, -3, 4611686018427387904], "b1": [False, True]}
 GEN_ALPHA = {
     "f8": [None, "1.0", "2.0", "-inf"],
     "i8": [0, 1, 2, -3],
